@@ -830,6 +830,7 @@ def rule_predsnap(ctx):
 
 
 def run(ctx):
+    S = ctx.soft
     r_prec, prec = rule_prec(ctx)
     snap = None
     try:
@@ -842,8 +843,8 @@ def run(ctx):
             raise
         assoc = None
     snap = snap or rule_predsnap(ctx)
-    rules = [r_prec, rule_arity(ctx)] + ([assoc] if assoc is not None else []) \
-        + [rule_unary(ctx), rule_names(ctx, prec), rule_empty(ctx),
-           rule_render(ctx), rule_fold(ctx), rule_signrun(ctx),
-           rule_filters(ctx), snap]
+    rules = [r_prec, S(rule_arity, ctx)] + ([assoc] if assoc is not None else []) \
+        + [S(rule_unary, ctx), S(rule_names, ctx, prec), S(rule_empty, ctx),
+           S(rule_render, ctx), S(rule_fold, ctx), S(rule_signrun, ctx),
+           S(rule_filters, ctx), snap]
     return rules
